@@ -579,3 +579,101 @@ func H_C03_url_encoded_name() {
 		vRunUrl("C03 Url encoded name only", "h?"+name+"="+v, []string{"a b"}, []string{v}, rm)
 	}
 }
+
+// struct types that refer to each other (employee <-> department; a cycle of three types with its only
+// rule in the last one): finite values, the types met in either order, each call compared with the reference
+type vEmp struct {
+	Dept *vDept `valid:"exist"`
+	Name string `valid:"required"`
+}
+
+type vDept struct {
+	Staff []*vEmp `valid:"exist"`
+	Title string
+}
+
+type vCyA struct {
+	B *vCyB `valid:"exist"`
+}
+
+type vCyB struct {
+	C []vCyC `valid:"exist"`
+}
+
+type vCyC struct {
+	A *vCyA  `valid:"exist"`
+	N string `valid:"required,r1"`
+}
+
+func H_C03_mutual_types() {
+	vUNoFail = true
+	known := vGlobalRules()
+	run := func(tag string, src interface{}) {
+		vULog = nil
+		err := Struct(src)
+		r := vNewRef()
+		r.global = known
+		r.top(src)
+		vCheckAgainstRef(tag, err, r)
+	}
+	emp := func(n string) *vEmp { return &vEmp{Name: vStr(n)} }
+	dept := func(n string) *vDept { return &vDept{Title: "t", Staff: []*vEmp{emp(n + ".0"), nil, emp(n + ".2")}} }
+	switch vndChoice("order", 5) {
+	case 0:
+		run("C03 employee first", &vEmp{Name: vStr("e"), Dept: dept("e.d")})
+		run("C03 department after employee", dept("d"))
+	case 1:
+		run("C03 department first", dept("d"))
+		run("C03 employee after department", &vEmp{Name: vStr("e"), Dept: dept("e.d")})
+	case 2:
+		run("C03 employee without department first", emp("e"))
+		run("C03 department after a bare employee", dept("d"))
+	case 3:
+		c := vCyC{N: vStr("c")}
+		run("C03 cycle of three types entered at A", &vCyA{B: &vCyB{C: []vCyC{c, {N: "x", A: &vCyA{B: &vCyB{C: []vCyC{{N: vStr("deep")}}}}}}}})
+		run("C03 cycle of three types entered at C", &vCyC{N: vStr("c2")})
+	default:
+		run("C03 cycle of three types entered at C", &vCyC{N: "n", A: &vCyA{B: &vCyB{C: []vCyC{{N: vStr("c")}}}}})
+		run("C03 cycle of three types entered at B", &vCyB{C: []vCyC{{N: vStr("b")}}})
+	}
+	vReach("end")
+}
+
+// a call that attaches no rule to a key says nothing about that key, whatever an earlier call required:
+// the same rule-less (or differently ruled) call is made before and after a Url / Map call that required a
+// missing key, and answers the same both times
+func H_C03_no_rule_after_ruled_call() {
+	vPoolMode([]string{"lifo", "adversarial"}[vndChoice("pool", 2)])
+	vUNoFail = true
+	vGlobalRules()
+	v := vPlainText("v", 1)
+	txt := func(err error) string {
+		if err == nil {
+			return "<nil>"
+		}
+		return string([]byte(err.Error()))
+	}
+	var call func() error
+	switch vndChoice("carrier", 6) {
+	case 0:
+		call = func() error { return NewVUrl().Valid("h?age=" + v) }
+	case 1:
+		call = func() error { return UrlForFn("h?age="+v, "r1", vURule("L-r1")) }
+	case 2:
+		call = func() error { return Url("h?age="+v, NewRule().Set("age", "required")) }
+	case 3:
+		call = func() error { return NewVMap().Valid(map[string]string{"age": v}) }
+	case 4:
+		call = func() error { return Map(map[string]string{"age": v}, NewRule().Set("age", "required")) }
+	default:
+		call = func() error { return NewVMap().Valid([]map[string]string{{"age": v}}) }
+	}
+	before := txt(call())
+	_ = Url("h?other=1", NewRule().Set("name", "required"))
+	_ = Map(map[string]string{"other": "1"}, NewRule().Set("name", "required,r1"))
+	_ = Map([]map[string]string{{"other": "1"}}, NewRule().Set("name", "required"))
+	_ = Url("h", NewRule().Set("name", "required|need name"))
+	after := txt(call())
+	vAssert(after == before, "C03 a call without a rule for a key answers the same before and after calls that required that key")
+	vReach("end")
+}
